@@ -284,7 +284,7 @@ def configs(quick, maxb=None):
                 # all singletons and pairs that mix a memory binding with a functional one, plus a deterministic slice
                 keep = [c for c in combos if len(c) <= 1]
                 pairs = [c for c in combos if len(c) == 2]
-                keep += pairs[:: max(1, len(pairs) // 300)]
+                keep += pairs[:: max(1, len(pairs) // 180)]
                 combos = keep
             for c in combos:
                 labels = [menu[i][0] for i in c]
